@@ -3,6 +3,8 @@ from copy import deepcopy
 from functools import cmp_to_key
 from random import shuffle
 
+import numpy as np
+
 from ..circuit import QubitCircuit
 from ..operations import Gate
 from .instruction import Instruction
@@ -560,8 +562,12 @@ class Scheduler:
 
         If the two gates do not have the same name,
         they are considered as not commuting.
-        If they are the same gate and have the same controls or targets,
-        they are considered as commuting.
+        If they are the same gate and have the same targets,
+        they are considered as commuting, unless the gate has more than
+        one parameter (e.g. ``R``, ``QASMU``, ``MS``, where the parameters
+        also determine the rotation axis) and the parameters differ.
+        If they are the same gate, have the same controls and
+        act on disjoint targets, they are considered as commuting.
         E.g. `CNOT 0, 1` commute with `CNOT 0, 2`.
         """
         instruction1 = instructions[ind1]
@@ -590,12 +596,27 @@ class Scheduler:
             else:
                 commute = False
             return commute
-        if (instruction1.controls) and (
+        if instruction1.targets == instruction2.targets:
+            # The same gate on the same targets: rotations around a fixed
+            # axis commute. Gates with several parameters only
+            # if the parameters are the same.
+            arg1 = instruction1.gate.arg_value
+            arg2 = instruction2.gate.arg_value
+            if (arg1 is None or np.isscalar(arg1)) and (
+                arg2 is None or np.isscalar(arg2)
+            ):
+                commute = True
+            else:
+                commute = np.array_equal(arg1, arg2)
+        elif (instruction1.controls) and (
             instruction1.controls == instruction2.controls
         ):
-            commute = True
-        elif instruction1.targets == instruction2.targets:
-            commute = True
+            # The same controls: the gates commute if they act on
+            # different targets, e.g. not for two FREDKIN gates that
+            # swap overlapping pairs of qubits.
+            commute = not (
+                set(instruction1.targets) & set(instruction2.targets)
+            )
         else:
             commute = False
         return commute
